@@ -216,15 +216,15 @@ PlanQuick ==
 PlanThorough ==
     << [kind |-> "sl", C |-> 1, n |-> 1, stride |-> 1], [kind |-> "sl", C |-> 1, n |-> 2, stride |-> 1],
        [kind |-> "sl", C |-> 1, n |-> 3, stride |-> 1],
-       [kind |-> "sl", C |-> 2, n |-> 1, stride |-> 1], [kind |-> "sl", C |-> 2, n |-> 2, stride |-> 1],
-       [kind |-> "cc", C |-> 2, n |-> 3, stride |-> 8],
+       [kind |-> "sl", C |-> 2, n |-> 1, stride |-> 1], [kind |-> "sl", C |-> 2, n |-> 2, stride |-> 2],
+       [kind |-> "cc", C |-> 2, n |-> 3, stride |-> 12],
        [kind |-> "sec", C |-> 2, n |-> 3, stride |-> 12], [kind |-> "sed", C |-> 2, n |-> 3, stride |-> 12],
-       [kind |-> "sl", C |-> 3, n |-> 1, stride |-> 1], [kind |-> "sl", C |-> 3, n |-> 2, stride |-> 12],
+       [kind |-> "sl", C |-> 3, n |-> 1, stride |-> 1], [kind |-> "sl", C |-> 3, n |-> 2, stride |-> 16],
        [kind |-> "ml", C |-> 1, n |-> 1, stride |-> 1], [kind |-> "ml", C |-> 1, n |-> 2, stride |-> 1],
        [kind |-> "ml", C |-> 1, n |-> 3, stride |-> 1],
        [kind |-> "ml", C |-> 2, n |-> 1, stride |-> 1], [kind |-> "ml", C |-> 2, n |-> 2, stride |-> 4],
        [kind |-> "ml", C |-> 2, n |-> 3, stride |-> 96],
-       [kind |-> "ml", C |-> 3, n |-> 1, stride |-> 1], [kind |-> "ml", C |-> 3, n |-> 2, stride |-> 256],
+       [kind |-> "ml", C |-> 3, n |-> 1, stride |-> 2], [kind |-> "ml", C |-> 3, n |-> 2, stride |-> 512],
        [kind |-> "mlnear", C |-> 2, n |-> 2, stride |-> 8], [kind |-> "mlnear", C |-> 2, n |-> 3, stride |-> 1024],
        [kind |-> "mlnear", C |-> 3, n |-> 2, stride |-> 2048],
        [kind |-> "sednear", C |-> 2, n |-> 2, stride |-> 2], [kind |-> "sednear", C |-> 2, n |-> 3, stride |-> 64],
